@@ -309,7 +309,11 @@ def run_check(mod):
         elif status == 'passes':
             print('KNOWN-FINDING-STALE: property=%s %s no longer reproduces' % (mod.ID, f['id']))
         known_counts[f['id']] = 0
-    merged = run_batch(mod, seed, tr, n_runs, budget)
+    try:
+        merged = run_batch(mod, seed, tr, n_runs, budget)
+    finally:
+        if hasattr(mod, 'teardown'):
+            mod.teardown()
     if merged['harness']:
         print(merged['harness'])
         if merged.get('harness_plan') is not None:
